@@ -40,13 +40,14 @@ theorem admitA_exLive (s : Server) (i : Nat) (k : Connect) (e : Nat) (h : (admit
 
 theorem admitClient_inv {s : Server} {i conn : Nat} {k : Connect} (h : SyncInvX (· = i) s) (hw : WF s)
     (hi : i < s.objs.length) (hid : (getObj s i).id = k.id) (hunreg : ∀ c, assocGet s.clients c ≠ some i)
-    (hpi : ∀ p ∈ s.pending, p.obj ≠ i) (hto : (getObj s i).takenOver = false) :
+    (hpi : ∀ p ∈ s.pending, p.obj ≠ i) (hto : (getObj s i).takenOver = false)
+    (hsubs : (getObj s i).subs = []) :
     SyncInv (admitClient s i conn k).1 ∧ Lst s (admitClient s i conn k).1 ∧
       (k.clean = true → (getObj (admitClient s i conn k).1 i).subs = (getObj s i).subs) := by
   unfold admitClient
   split
   rename_i s1 o1 present exLive h1
-  obtain ⟨a1, l1, t1, c1⟩ := admitA_inv (k := k) h hw hi hid hunreg hpi hto
+  obtain ⟨a1, l1, t1, c1⟩ := admitA_inv (k := k) h hw hi hid hunreg hpi hto hsubs
   have hex := admitA_exLive s i k
   have k1 := admitA_keep s i k
   have w1 := admitA_wf s i k hw hi hid
@@ -118,10 +119,13 @@ theorem SyncInv.addObj {s : Server} (h : SyncInv s) (hw : WF s) (c : Client) (co
   have hlen : (s.objs ++ [c]).length = s.objs.length + 1 := by simp
   have hreglt : ∀ cid j, assocGet s.clients cid = some j → j < s.objs.length :=
     fun cid j hj => (hw.clients_valid cid j (assocGet_mem _ _ _ hj)).1
-  refine ⟨h.idx, ?_, ?_, ?_, ?_, ?_, ?_, ?_, h.disj, ?_, h.pendFree, ?_, h.pendNodup, ?_⟩
+  refine ⟨h.idx, ?_, ?_, ?_, ?_, ?_, ?_, ?_, ?_, h.disj, ?_, h.pendFree, ?_, h.pendNodup, ?_⟩
   · intro cid f hcf
     obtain ⟨j, hj, hf⟩ := h.own cid f hcf
     exact ⟨j, hj, by rw [hlt j (hreglt cid j hj)]; exact hf⟩
+  · intro cid j hj f hf hs
+    rw [hlt j (hreglt cid j hj)] at hf
+    exact h.ownB cid j hj f hf hs
   · intro k
     rcases hcases k with rfl | e
     · rw [heq]; intro fs hfs; rw [hsubs] at hfs; cases hfs
@@ -216,6 +220,7 @@ theorem connect_inv {s : Server} (h : SyncInv s) (hw : WF s) (conn : Nat) (k : C
       rw [e] at this
       exact Nat.lt_irrefl _ this
     obtain ⟨a, l, cs⟩ := admitClient_inv (conn := conn) (k := k) h1 w1 hi hid hunreg hpi (by rw [hci]; rfl)
+      (by rw [hci]; rfl)
     have kp := (admitClient_wf s1 i conn k w1 hi hid).2
     exact ⟨a, ⟨l.parked, l.parkedEarly⟩, kp.pending, kp.connOf, fun hcl => by rw [cs hcl, hci]; rfl⟩
 
@@ -339,7 +344,7 @@ theorem SyncInv.park {s : Server} (h : SyncInv s) (i : Nat) (hi : i < s.objs.len
     (hst : (getObj s i).stopped = true) (hfree : Free s i)
     (hreg : (getObj s i).takenOver = true ∨ assocGet s.clients (getObj s i).id = some i) :
     SyncInv { s with parked := s.parked ++ [i] } := by
-  refine ⟨h.idx, h.own, h.key, h.os, h.ts, ?_, h.regTO, ?_, ?_, ?_, ?_, h.st1, h.pendNodup, h.pendConn⟩
+  refine ⟨h.idx, h.own, h.ownB, h.key, h.os, h.ts, ?_, h.regTO, ?_, ?_, ?_, ?_, h.st1, h.pendNodup, h.pendConn⟩
   · intro k hk ha ht hx hs1
     by_cases hki : k = i
     · subst hki
@@ -383,7 +388,7 @@ theorem SyncInv.park {s : Server} (h : SyncInv s) (i : Nat) (hi : i < s.objs.len
 theorem SyncInv.parkEarly {s : Server} (h : SyncInv s) (i : Nat) (hi : i < s.objs.length)
     (hlive : (getObj s i).stopped = false) (hfree : Free s i) :
     SyncInv { s with parkedEarly := s.parkedEarly ++ [i] } := by
-  refine ⟨h.idx, h.own, h.key, h.os, h.ts, ?_, h.regTO, ?_, ?_, h.parkedStopped, ?_, h.st1, h.pendNodup, h.pendConn⟩
+  refine ⟨h.idx, h.own, h.ownB, h.key, h.os, h.ts, ?_, h.regTO, ?_, ?_, h.parkedStopped, ?_, h.st1, h.pendNodup, h.pendConn⟩
   · intro k hk ha ht hx hs1
     refine h.reg k hk ?_ ht hx hs1
     rcases ha with ha | ha | ha
@@ -415,7 +420,7 @@ theorem SyncInv.parkEarly {s : Server} (h : SyncInv s) (i : Nat) (hi : i < s.obj
 /-- parked handlers run on: they leave the lists -/
 theorem SyncInv.unpark {s : Server} (h : SyncInv s) (P E : List Nat) (m1 : ∀ k, k ∈ P → k ∈ s.parked)
     (m2 : ∀ k, k ∈ E → k ∈ s.parkedEarly) : SyncInv { s with parked := P, parkedEarly := E } := by
-  refine ⟨h.idx, h.own, h.key, h.os, h.ts, ?_, h.regTO, ?_, ?_, ?_, ?_, h.st1, h.pendNodup, h.pendConn⟩
+  refine ⟨h.idx, h.own, h.ownB, h.key, h.os, h.ts, ?_, h.regTO, ?_, ?_, ?_, ?_, h.st1, h.pendNodup, h.pendConn⟩
   · intro k hk ha ht hx hs1
     refine h.reg k hk ?_ ht hx hs1
     rcases ha with ha | ha | ha
@@ -452,9 +457,10 @@ theorem SyncInvX.addPending {X : Nat → Prop} {s : Server} (h : SyncInvX X s) (
     (hX : ∀ k, X k → p.stage = 1 ∧ p.obj = k)
     (hnew : p.obj ∉ s.pending.map (·.obj)) (hnp : p.obj ∉ s.parked) (hne : p.obj ∉ s.parkedEarly)
     (hconn : assocGet s.connOf p.conn = some p.obj)
-    (h1 : p.stage = 1 → (∀ c, assocGet s.clients c ≠ some p.obj) ∧ (getObj s p.obj).takenOver = false) :
+    (h1 : p.stage = 1 → (∀ c, assocGet s.clients c ≠ some p.obj) ∧ (getObj s p.obj).takenOver = false ∧
+      (getObj s p.obj).subs = []) :
     SyncInv { s with pending := s.pending ++ [p] } := by
-  refine ⟨h.idx, h.own, h.key, h.os, h.ts, ?_, h.regTO, h.parkedLt, h.disj, h.parkedStopped, ?_, ?_, ?_, ?_⟩
+  refine ⟨h.idx, h.own, h.ownB, h.key, h.os, h.ts, ?_, h.regTO, h.parkedLt, h.disj, h.parkedStopped, ?_, ?_, ?_, ?_⟩
   · intro k hk ha ht _ hs1
     replace hs1 : ¬ Stage1 { s with pending := s.pending ++ [p] } k := hs1
     refine h.reg k hk ha ht ?_ ?_
@@ -491,7 +497,7 @@ theorem SyncInv.filterPending {s : Server} (h : SyncInv s) (p : Pending) (hp : p
     (hpc : p.conn = conn) :
     SyncInvX (· = p.obj) { s with pending := s.pending.filter (·.conn != conn) } := by
   have m : ∀ q, q ∈ s.pending.filter (·.conn != conn) → q ∈ s.pending := fun q hq => (List.mem_filter.mp hq).1
-  refine ⟨h.idx, h.own, h.key, h.os, h.ts, ?_, h.regTO, h.parkedLt, h.disj, h.parkedStopped,
+  refine ⟨h.idx, h.own, h.ownB, h.key, h.os, h.ts, ?_, h.regTO, h.parkedLt, h.disj, h.parkedStopped,
     fun q hq => h.pendFree q (m q hq), fun q hq => h.st1 q (m q hq),
     (List.filter_sublist.map _).nodup h.pendNodup, fun q hq => h.pendConn q (m q hq)⟩
   intro k hk ha ht hx hs1
@@ -551,7 +557,7 @@ theorem connectHold_inv {s : Server} (h : SyncInv s) (hw : WF s) (conn : Nat) (k
     · rw [hpo]; exact hnpk
     · rw [hpo]; exact hnpe
     · rw [hpo, hpc]; exact hconn
-    · intro _; rw [hpo]; exact ⟨hunreg, hto⟩
+    · intro _; rw [hpo]; exact ⟨hunreg, hto, by rw [hci]; rfl⟩
   -- refused at once
   have refuse : SyncInv (stopClient s1 i).1 := by
     have q2 := stopClient_quiet s1 i
@@ -579,7 +585,7 @@ theorem connectHold_inv {s : Server} (h : SyncInv s) (hw : WF s) (conn : Nat) (k
     · exact park1 _ rfl rfl rfl
     · split
       rename_i s2 o1 present exLive hA
-      obtain ⟨a2, l2, t2, _⟩ := admitA_inv (k := k) h1 w1 hi hid hunreg hpi hto
+      obtain ⟨a2, l2, t2, _⟩ := admitA_inv (k := k) h1 w1 hi hid hunreg hpi hto (by rw [hci]; rfl)
       have hex := admitA_exLive s1 i k
       have k2 := admitA_keep s1 i k
       have w2 := admitA_wf s1 i k w1 hi hid
@@ -619,14 +625,15 @@ theorem connectRelease_inv {s : Server} (p : Pending) (h : SyncInvX (· = p.obj)
     (hi : p.obj < s.objs.length) (hid : (getObj s p.obj).id = p.k.id)
     (hnpk : p.obj ∉ s.parked) (hnpe : p.obj ∉ s.parkedEarly)
     (hpi : ∀ q ∈ s.pending, q.obj ≠ p.obj)
-    (h1 : p.stage = 1 → (∀ c, assocGet s.clients c ≠ some p.obj) ∧ (getObj s p.obj).takenOver = false)
+    (h1 : p.stage = 1 → (∀ c, assocGet s.clients c ≠ some p.obj) ∧ (getObj s p.obj).takenOver = false ∧
+      (getObj s p.obj).subs = [])
     (h2 : p.stage ≠ 1 → SyncInv s) :
     SyncInv (connectRelease s p).1 ∧ Lst s (connectRelease s p).1 := by
   unfold connectRelease
   split
   · rename_i hs1
     have hs1 : p.stage = 1 := by simpa using hs1
-    obtain ⟨hunreg, hto⟩ := h1 hs1
+    obtain ⟨hunreg, hto, hsb⟩ := h1 hs1
     split
     · split
       rename_i s2 o2 hst2
@@ -644,7 +651,7 @@ theorem connectRelease_inv {s : Server} (p : Pending) (h : SyncInvX (· = p.obj)
       · rw [hst] at ha; cases ha
       · rw [q2.parked] at ha; exact absurd ha hnpk
       · rw [q2.parkedEarly] at ha; exact absurd ha hnpe
-    · exact ⟨(admitClient_inv h hw hi hid hunreg hpi hto).1, (admitClient_inv h hw hi hid hunreg hpi hto).2.1⟩
+    · exact ⟨(admitClient_inv h hw hi hid hunreg hpi hto hsb).1, (admitClient_inv h hw hi hid hunreg hpi hto hsb).2.1⟩
   · rename_i hs1
     have hs1 : p.stage ≠ 1 := by simpa using hs1
     have a := h2 hs1
